@@ -1,7 +1,11 @@
 package props
 
 import (
+	"bytes"
 	"fmt"
+	"time"
+
+	"github.com/IBM/fluent-forward-go/fluent/protocol"
 
 	"verif/harness/core"
 	"verif/harness/gen"
@@ -51,6 +55,15 @@ func C18(c *core.Ctx) {
 				enc, _ = marshal(m.ToGo(r).(codecMsg))
 			default:
 				enc = gen.AltMsg(r, m, true, nil, nil) // also the short arity without option element
+			}
+			if m.Opts.Absent {
+				// both spellings of "no options" are in every pool: the option element dropped (what the library's own
+				// encoders write for some modes) and an explicit nil element (what other senders write)
+				full := map[string]int{"message": 4, "message_ext": 4, "forward": 3, "packed": 3}[mode]
+				wantNil := len(pool)%8 == 0
+				for try := 0; try < 64 && (int(enc[0]&0x0f) == full) != wantNil; try++ {
+					enc = gen.AltMsg(r, m, true, nil, nil)
+				}
 			}
 			pool = append(pool, item{m, enc})
 		}
@@ -124,6 +137,45 @@ func C18(c *core.Ctx) {
 				c.Corr("c18-reuse", "U_"+mode, []string{path, hx(last.enc)}, obsReuse)
 				if len(seq) == 2 && seq[0] == 1 && seq[1] == 0 && path == "slice" {
 					c.Sample(map[string]string{"mode": mode, "first": trunc(hx(pool[1].enc), 120), "then": trunc(hx(last.enc), 120), "observed": trunc(obsReuse, 200)})
+				}
+			}
+		}
+		// receivers that were not filled by a decoder but built by the caller (constructors, literals): records
+		// shared between entries, records of types that can decode themselves, long streams, option objects
+		shared := map[string]interface{}{"shared": "record", "n": int64(1)}
+		built := func() []codecMsg {
+			opt := &protocol.MessageOptions{Chunk: "built-chunk", Compressed: "gzip"}
+			switch mode {
+			case "message":
+				return []codecMsg{protocol.NewMessage("built", shared), protocol.NewMessage("built", &protocol.EventTime{Time: time.Unix(77, 5)}),
+					&protocol.Message{Tag: "built", Timestamp: 9, Record: []interface{}{shared, shared}, Options: opt}}
+			case "message_ext":
+				return []codecMsg{protocol.NewMessageExt("built", shared), protocol.NewMessageExt("built", &protocol.EventTime{Time: time.Unix(77, 5)}),
+					&protocol.MessageExt{Tag: "built", Timestamp: protocol.EventTime{Time: time.Unix(1<<33, 9)}, Record: &protocol.MessageOptions{Chunk: "as-record"}, Options: opt}}
+			case "forward":
+				es := make(protocol.EntryList, 6)
+				for i := range es {
+					es[i] = protocol.EntryExt{Timestamp: protocol.EventTime{Time: time.Unix((1<<32)+int64(i), 3)}, Record: shared}
+				}
+				return []codecMsg{protocol.NewForwardMessage("built", es), &protocol.ForwardMessage{Tag: "built", Entries: es[:2:2], Options: opt}}
+			default:
+				pm, _ := protocol.NewCompressedPackedForwardMessageFromBytes("built", bytes.Repeat([]byte{0x92, 0x01, 0x80}, 3000))
+				return []codecMsg{pm, protocol.NewPackedForwardMessageFromBytes("built", bytes.Repeat([]byte{0xc0}, 9000)), &protocol.PackedForwardMessage{Tag: "built", EventStream: []byte{}, Options: opt}}
+			}
+		}
+		for li := 0; li < len(pool) && li < c.N(30, 300); li++ {
+			last := pool[li]
+			for _, path := range paths {
+				for bi, recv := range built() {
+					obsReuse, _, _ := decodeMsgObs(mode, path, recv, last.enc)
+					obsFresh, _, _ := decodeMsgObs(mode, path, newReceiver(mode), last.enc)
+					c.Eval()
+					c.Hist(fmt.Sprintf("%s %s into a receiver built by the caller", mode, path))
+					if obsReuse != obsFresh {
+						c.Violation("judge-go", "c18-reuse", fmt.Sprintf("decoding into a %s built by the caller (variant %d) differs from decoding into a fresh one (%s)", mode, bi, path),
+							map[string]interface{}{"mode": mode, "path": path, "built_variant": bi, "bytes": hx(last.enc), "reused": trunc(obsReuse, 400), "fresh": trunc(obsFresh, 400)})
+					}
+					c.Corr("c18-reuse", "U_"+mode, []string{path, hx(last.enc)}, obsReuse)
 				}
 			}
 		}
